@@ -8,6 +8,7 @@ CONSTANTS
   AvailSet <- A1to20
   IndSet = {0}
   AlignMode = 0
+  DupMode = FALSE
   Pool <- PoolFull
 INVARIANT TypeOK
 INVARIANT InvSucceeds
